@@ -93,7 +93,7 @@ def tlc_map(ctx, module, in_path, in_env, marker, shards, timeout=900, heap="3g"
 def inflate_variant(v):
     """v: a decoded file variant from Read_MpqFormat -> {res,len,tok,plens,wants} (payloads inflated by zlib/bz2)."""
     if v["res"] != "ok":
-        return {"res": v["res"], "len": -1, "tok": "", "plens": [], "wants": []}
+        return {"res": v["res"], "len": -1, "tok": "", "plens": [], "wants": [], "crc": v.get("crc", "none")}
     out = bytearray()
     plens, wants = [], []
     res = "ok"
@@ -116,7 +116,7 @@ def inflate_variant(v):
             res, d = "err:method", b""
         plens.append(len(d))
         out += d
-    return {"res": res, "len": len(out), "tok": tok(out), "plens": plens, "wants": wants}
+    return {"res": res, "len": len(out), "tok": tok(out), "plens": plens, "wants": wants, "crc": v.get("crc", "none")}
 
 
 def trace_dir1(arch_path, decoded):
@@ -126,8 +126,9 @@ def trace_dir1(arch_path, decoded):
         a = json.loads(line)
         case = a["case"]
         names = [f["name"] for f in a["files"]]
-        evs.append({"ev": "Reset", "case": case, "dir": 1, "ver": a["ver"], "shift": a["shift"], "names": names,
+        evs.append({"ev": "Reset", "case": case, "dir": 1, "ver": a["ver"], "shift": a["shift"], "crc": a.get("crc", False), "names": names,
                     "lens": [f["len"] for f in a["files"]], "toks": [f["tok"] for f in a["files"]],
+                    "twin": {"name": "", "len": -1, "tok": ""},
                     "cfg": {"listfile": a["listfile"], "files": [{k: f[k] for k in ("name", "meth", "enc", "lc", "cc")} for f in a["files"]]}})
         evs.append({"ev": "Build", "case": case, "res": a["res"]})
         hn = d["hn"]
@@ -136,8 +137,10 @@ def trace_dir1(arch_path, decoded):
             nfiles += 1
             evs.append({"ev": "RefFile", "case": case, "name": f["name"], "meth": f["meth"], "enc": f["enc"], "lc": f["lc"],
                         "fsize": df["std"]["fsize"], "flags": df["std"]["flags"], "single": df["std"]["single"],
+                        "locale": df["std"]["locale"], "platform": df["std"]["platform"],
                         "std": inflate_variant(df["std"]), "rawsame": df["rawsame"],
-                        "labels": "+".join(sorted(df["labels"])), "lib": inflate_variant(df["lib"]), "librawsame": df["librawsame"]})
+                        "devs": [{"labels": "+".join(dv["labels"]), "v": inflate_variant(dv["v"]), "rawsame": dv["rawsame"]}
+                                 for dv in df["devs"]]})
         for ab, res in zip(a["absent"], d["absent"]):
             evs.append({"ev": "RefAbsent", "case": case, "name": ab["name"], "res": res})
         if d["listfile"]:
@@ -186,7 +189,7 @@ def compress_unit(raw, meth):
     return {"m": -1, "p": list(raw)}
 
 
-def make_file(name, data, meth, enc, unit, ssize):
+def make_file(name, data, meth, enc, unit, ssize, crc=False):
     single = (len(data) <= ssize) if unit == "auto" else (unit == "single")
     if not data:
         secs = []
@@ -194,7 +197,7 @@ def make_file(name, data, meth, enc, unit, ssize):
         secs = [compress_unit(data, meth)]
     else:
         secs = [compress_unit(data[i:i + ssize], meth) for i in range(0, len(data), ssize)]
-    return {"name": name, "nb": list(name.encode("latin-1")), "fsize": len(data), "enc": enc, "single": single,
+    return {"name": name, "nb": list(name.encode("latin-1")), "locale": 0, "crc": bool(crc), "fsize": len(data), "enc": enc, "single": single,
             "cflag": meth != "none", "sectors": secs}
 
 
@@ -215,8 +218,18 @@ def concretise_dir2(cases, seed):
         for fi, f in enumerate(c["files"]):
             rng = random.Random(f"c02r:{seed}:{c['id']}:{fi}")
             data = gen_content(f["cc"], length_of(f["lc"], ssize), rng)
-            files.append(make_file(f["name"], data, f["meth"], f["enc"], f["unit"], ssize))
-            meta.append({"name": f["name"], "len": len(data), "tok": tok(data), "meth": f["meth"], "enc": f["enc"], "lc": f["lc"], "unit": f["unit"]})
+            files.append(make_file(f["name"], data, f["meth"], f["enc"], f["unit"], ssize, f.get("crc", False)))
+            meta.append({"name": f["name"], "len": len(data), "tok": tok(data), "meth": f["meth"], "enc": f["enc"], "lc": f["lc"], "unit": f["unit"] + ("+crc" if f.get("crc") else "")})
+        twin = {"name": "", "len": -1, "tok": ""}
+        if c.get("twin") and files:
+            # same name as file 1, locale 0x409 (enUS), other content, inserted first => earlier in the probe chain;
+            # a neutral-locale lookup must still return the neutral entry
+            rng = random.Random(f"c02r:{seed}:{c['id']}:twin")
+            tw = make_file(files[0]["name"], gen_content("text", 33, rng), "none", "plain", "auto", ssize)
+            tw["locale"] = 0x409
+            files.insert(0, tw)
+            meta.insert(0, None)
+            twin = {"name": tw["name"], "len": tw["fsize"], "tok": tok(bytes(tw["sectors"][0]["p"]))}
         names = [f["name"] for f in c["files"]] + [LISTFILE]
         ldata = "".join(n + "\r\n" for n in names).encode("latin-1")
         files.append(make_file(LISTFILE, ldata, c["listfile"], "plain", "auto", ssize))
@@ -225,17 +238,31 @@ def concretise_dir2(cases, seed):
         hcount = pow2_at_least(2 * n + 2) if c["roomy"] else pow2_at_least(n + c["ndel"])
         pool = [f"absent{k:02d}.dat" for k in range(24)] + ["Data\\File99.bin"]
         out.append({"case": c["id"], "ver": c["ver"], "shift": c["shift"],
-                    "cfg": {"ver": c["ver"], "shift": c["shift"], "hcount": hcount, "ndel": c["ndel"], "hibt": c["hibt"], "prefixlen": c["prefix"]},
-                    "files": files, "meta": meta, "pool": pool, "absentpool": [list(p.encode()) for p in pool]})
+                    "cfg": {"ver": c["ver"], "shift": c["shift"], "hcount": hcount, "ndel": c["ndel"], "hibt": c["hibt"], "prefixlen": c["prefix"],
+                            "userdata": bool(c.get("userdata")), "twin": bool(c.get("twin"))},
+                    "files": files, "meta": meta, "twin": twin, "pool": pool, "absentpool": [list(p.encode()) for p in pool]})
     return out
 
 
 # ------------------------------------------------------------------------------------------ signature
+DEV_FINDING = {"crclayout": "C02-CRC-LAYOUT", "localefirst": "C02-LOCALE-FIRST-MATCH", "tail": "C02-ENC-TAIL", "pathkey": "C02-KEY-FULLPATH", "rawtable": "C02-RAW-MULTISECTOR", "oneblock": "C02-RAW-ONEBLOCK"}
+
+
+def known_devs():
+    """Deviation labels whose finding is still `known`.  C02_FIXED=tail,pathkey treats findings as fixed for
+    one run (testing a fix patch through VERIF_REPO without editing known_findings.d)."""
+    st = {k["id"]: k.get("status") for k in core.load_known("C02")}
+    fixed = set(x for x in os.environ.get("C02_FIXED", "").split(",") if x)
+    return {d for d, fid in DEV_FINDING.items() if st.get(fid) == "known" and d not in fixed}
+
+
 def sig(b):
-    rec = b.get("rec") or {}
     reset = b.get("reset") or {}
     why = str(b.get("why", "")).strip('"')
-    return {"dir": reset.get("dir"), "ev": b.get("ev"), "why": why}
+    devs = why[4:].split("+") if why.startswith("dev:") else []
+    # a combination is a known finding only if EVERY deviation in it is still listed as known
+    return {"dir": reset.get("dir"), "ev": b.get("ev"), "why": why,
+            "devs_all_known": bool(devs) and all(d in known_devs() for d in devs)}
 
 
 # ------------------------------------------------------------------------------------------ main
@@ -296,26 +323,31 @@ def run(ctx, cases_override=None):
             f.write(json.dumps({k: w[k] for k in ("case", "cfg", "files", "absentpool")}) + "\n")
     t1 = _t.time()
     written = tlc_map(ctx, "Write_MpqFormat", wpath, "WCASES", "ENCODED", shards) if wcases else []
-    core.log(f"(C2) Write_MpqFormat: reference wrote {len(written)} archives (+{sum(1 for o in written if o['lib'])} in the library dialect) in {round(_t.time() - t1, 1)}s")
+    core.log(f"(C2) Write_MpqFormat: reference wrote {len(written)} archives (+{sum(len(o['vars']) for o in written)} deviation variants) in {round(_t.time() - t1, 1)}s")
     adir = ctx.path("refarchives")
     os.makedirs(adir, exist_ok=True)
     rpath = ctx.path("rcases.ndjson")
     nfiles2 = 0
+    nvars = 0
     with open(rpath, "w") as f:
         for w, o in zip(wcases, written):
             if not o["selfok"]:
                 raise core.ToolError(f"reference writer produced an archive the reference reader rejects (case {w['case']}): model defect")
             sp = os.path.join(adir, f"r{w['case']}.std.mpq")
             open(sp, "wb").write(bytes(o["std"]))
-            lp = ""
-            if o["lib"]:
-                lp = os.path.join(adir, f"r{w['case']}.lib.mpq")
-                open(lp, "wb").write(bytes(o["lib"]))
-            labels = ["+".join(sorted(l)) for l in o["labels"]]
+            vps = []
+            for j, vb in enumerate(o["vars"]):
+                vp = os.path.join(adir, f"r{w['case']}.v{j + 1}.mpq")
+                open(vp, "wb").write(bytes(vb))
+                vps.append(vp)
+            nvars += len(vps)
+            keep = [i for i, m in enumerate(w["meta"]) if m is not None]          # the locale twin is not read by name
+            labels = [["+".join(l) for l in o["labels"][i]] for i in keep]
+            w["meta"] = [w["meta"][i] for i in keep]
             nfiles2 += len(w["meta"])
-            f.write(json.dumps({"case": w["case"], "ver": w["ver"], "shift": w["shift"], "std": sp, "lib": lp,
+            f.write(json.dumps({"case": w["case"], "ver": w["ver"], "shift": w["shift"], "std": sp, "vars": vps,
                                 "names": [m["name"] for m in w["meta"]], "lens": [m["len"] for m in w["meta"]],
-                                "toks": [m["tok"] for m in w["meta"]], "labels": labels, "listlabels": labels[-1],
+                                "toks": [m["tok"] for m in w["meta"]], "labels": labels, "twin": w["twin"],
                                 "absent": [w["pool"][i - 1] for i in o["absent"]],
                                 "cfg": {**w["cfg"], "files": [{k: m[k] for k in ("name", "meth", "enc", "lc", "unit")} for m in w["meta"]]}}) + "\n")
     trace2 = ctx.harness(binary, rpath, trace_name="trace2.ndjson", extra=("read",)) if wcases else None
